@@ -287,6 +287,35 @@ def g_chain_program(rng, tier):
     return mains + flows
 
 
+def g_competing_program(rng, tier):
+    """Flows that COMPETE: 2-3 dialog flows starting with the same user intent (equal priorities, or explicit
+    `priority` lines), each continuing with a bot / execute statement (or, sometimes, a user statement: it cannot
+    decide), plus an unrelated flow with its own intent that can interrupt them."""
+    nm = Names()
+    shared = nm.user()
+    n = rng.choice([2, 2, 3])
+    prios = None
+    if rng.random() < 0.45:
+        prios = [rng.choice([0.5, 1.0, 1.0, 2.0, 2.0]) for _ in range(n)]
+    flows = []
+    for i in range(n):
+        first = rng.random()
+        if first < 0.65:
+            body = [{"b": nm.bot()}]
+        elif first < 0.85:
+            body = [{"x": [nm.act(), [], rng.choice([None, "r"])]}]
+        else:
+            body = [{"u": nm.user()}, {"b": nm.bot()}]
+        body += g_block(rng, nm, [], 1, False, rng.choice([0, 1, 2]))
+        f = {"name": f"c{i}", "sub": False, "body": [{"u": shared}] + body}
+        if prios:
+            f["prio"] = prios[i]
+        flows.append(f)
+    if rng.random() < 0.5:
+        flows.insert(rng.randrange(len(flows) + 1), {"name": "other", "sub": False, "body": [{"u": nm.user()}, {"b": nm.bot()}, {"u": nm.user()}, {"b": nm.bot()}]})
+    return flows
+
+
 def g_compute_program(rng, tier):
     """Computation loops: `while` loops in which whole iterations run without reaching a blocking statement
     (counters, accumulators, nested loops, a step under an `if` that is not taken in the first iterations,
@@ -415,6 +444,8 @@ def render(flows):
     out = []
     for f in flows:
         out.append(("define subflow " if f["sub"] else "define flow ") + f["name"])
+        if f.get("prio") is not None:
+            out.append(f"  priority {f['prio']}")
         r_block(f["body"], 1, out)
         out.append("")
     return "\n".join(out)
@@ -549,7 +580,15 @@ class Ref:
 
     def __init__(self, flows):
         self.bodies = {f["name"]: f["body"] for f in flows}
-        self.starts = {f["body"][0]["u"]: f["name"] for f in flows if not f["sub"]}
+        # flows that start with the same intent COMPETE: `start_lists` keeps them in source order
+        self.start_lists = {}
+        for f in flows:
+            if not f["sub"]:
+                self.start_lists.setdefault(f["body"][0]["u"], []).append(f["name"])
+        self.starts = {i: names[0] for i, names in self.start_lists.items()}
+        self.prio = {f["name"]: (f.get("prio") if f.get("prio") is not None else 1.0) for f in flows}
+        self.saved = None        # the flow suspended by an interrupting flow: (run, pending)
+        self.abstain_next = False
         self.ctx = {}
         self.upd = {}
         self.run = None  # (flow name, generator)
@@ -571,7 +610,14 @@ class Ref:
             if starting:
                 self.finished_on_start = True
             if self.suspended:
-                self.abstain = True  # the interrupted flow comes back: no claim about it
+                # "Flows are resumed when the interruption flow completes" (compute_next_state): the interrupted flow
+                # comes back at ITS OWN statement, with the context as the interrupting flow left it
+                if self.saved is not None:
+                    self.run, self.pending = self.saved
+                    self.saved = None
+                    self.suspended = False
+                else:
+                    self.abstain = True
         except _EvalError:
             self.error = True
             self.abstain = True
@@ -579,9 +625,44 @@ class Ref:
             self.abstain = True
 
     def _start(self, name):
+        names = self.start_lists.get(self.bodies[name][0]["u"], [name])
+        if len(names) > 1:
+            return self._start_competing(names)
         self.run = (name, ref_block(self.bodies[name], self.ctx, self.upd, self.bodies, [4000]))
         self._advance()  # the start intent itself
         self._advance(starting=True)
+
+    def _start_competing(self, names):
+        """Several flows start with this intent: all of them start (in source order, on the shared context); the next
+        step is the one of the flow with the highest priority that can decide something, the FIRST such flow among
+        equals ("the first one that can decide something will be used", compute_next_state).  No claim afterwards."""
+        if self.suspended:
+            self.abstain = True
+            return
+        cands = []
+        for name in names:
+            gen = ref_block(self.bodies[name], self.ctx, self.upd, self.bodies, [4000])
+            try:
+                next(gen)
+                cands.append((name, gen, next(gen)))
+            except StopIteration:
+                self.finished_on_start = True
+                cands.append((name, gen, None))
+            except _EvalError:
+                self.error = True
+                self.abstain = True
+                return
+            except (_Break, _Continue):
+                self.abstain = True
+                return
+        able = [c for c in cands if c[2] is not None and c[2][0] in ("bot", "act")]
+        self.abstain_next = True
+        if not able:
+            self.run, self.pending = None, None
+            return
+        best = max(self.prio[c[0]] for c in able)
+        name, gen, pend = next(c for c in able if self.prio[c[0]] == best)
+        self.run, self.pending = (name, gen), pend
 
     def feed(self, ev):
         k = ev["e"]
@@ -593,6 +674,12 @@ class Ref:
             self.upd.clear()
             return
         self.upd.clear()
+        if self.abstain_next:
+            # after a competing start there is no claim about ANY later event (the flows that lost are still running:
+            # e.g. on a later non-triggering event every waiting flow records its step with modifier 0.9 and a later
+            # flow of equal priority then replaces an earlier one, see design_notes/C14.md)
+            self.abstain = True
+            return
         if k == "other":
             return
         if self.abstain:
@@ -602,7 +689,13 @@ class Ref:
                 self._advance()
             elif self.run and self.pending and self.pending[0] == "user" and ev["i"] in self.starts and self.starts[ev["i"]] != self.run[0] and not self.suspended:
                 self.suspended = True
+                self.saved = (self.run, self.pending)
                 self._start(self.starts[ev["i"]])
+            elif self.run and self.pending and self.pending[0] == "user" and ev["i"] not in self.starts and not (self.saved and self.saved[1] == ("user", ev["i"])):
+                # no flow starts with this intent and the waiting flow does not expect it: the flow is interrupted by
+                # nobody and resumed at once ("if already there are no more flows to interrupt, we should resume") —
+                # it keeps its position
+                pass
             elif self.run and self.pending and self.pending[0] in ("bot", "act") and not self.suspended:
                 # left at a bot/execute statement: the flow (and the flows that called it) is aborted, i.e. over;
                 # another flow may start on this very event, the same flow only on a later one
@@ -910,6 +1003,11 @@ def gen_cases(rng, tier):
         flows = [g_program, g_program, g_chain_program, g_compute_program][i % 4](sub3, tier)
         for _ in range(2):
             cases.append({"kind": "fn", "flows": flows, "history": g_reentry_history(sub3, flows), "seed": sub3.randrange(1 << 30)})
+    sub4 = random.Random(rng.randrange(1 << 30))
+    for _ in range(40 if tier == "quick" else 500):
+        flows = g_competing_program(sub4, tier)
+        for mode in ("follow", "leave"):
+            cases.append({"kind": "fn", "flows": flows, "history": g_history(sub4, flows, mode), "seed": sub4.randrange(1 << 30)})
     sub2 = random.Random(rng.randrange(1 << 30))
     for _ in range(n_comp):
         flows = g_compute_program(sub2, tier)
@@ -1069,6 +1167,13 @@ def run_rt(case, src):
     turns = [ev["i"] for ev in case["history"] if ev["e"] == "user"][:6]
     results = [tr.val_from_model(ev["d"][0][1]) for ev in case["history"] if ev["e"] == "ctx" and len(ev["d"]) == 1 and ev["d"][0][0] in ("r",)]
 
+    from nemoguardrails.actions.actions import ActionResult
+
+    # scripted behaviour of the k-th action call of a conversation (a function of k only, so that a fresh and a used
+    # runtime must produce the same conversation): plain value / failure (raises) / ActionResult with context updates
+    beh_rng = random.Random(case["seed"] ^ 0x5EED)
+    behaviours = [beh_rng.choice(["plain"] * 7 + ["fail", "result", "result_same"]) for _ in range(64)]
+
     def mk():
         rt = _M.RT.__new__(_M.RT)
         rt.config = cfg
@@ -1079,36 +1184,55 @@ def run_rt(case, src):
         rt.watchers = []
         rt.max_events = 500
         calls = [0]
+        log = []
 
         async def act(**kw):
             calls[0] += 1
-            return results[(calls[0] - 1) % len(results)] if results else calls[0] % 3
+            k = calls[0] - 1
+            v = results[k % len(results)] if results else calls[0] % 3
+            b = behaviours[k % len(behaviours)]
+            if b == "fail":
+                log.append({"status": "failed"})
+                raise RuntimeError("scripted failure")
+            if b == "result":
+                log.append({"status": "success", "ret": tr.val_to_model(v), "cu": [["y", tr.val_to_model(k % 2)]]})
+                return ActionResult(return_value=v, context_updates={"y": k % 2})
+            if b == "result_same":
+                # context updates that change nothing the flows can see are not reported
+                log.append({"status": "success", "ret": None, "cu": [["zz_unset", None]]})
+                return ActionResult(return_value=None, context_updates={"zz_unset": None})
+            log.append({"status": "success", "ret": tr.val_to_model(v)})
+            return v
 
         for i in range(1, 40):
             rt.action_dispatcher.register_action(act, f"a{i}")
-        return rt, calls
+        return rt, calls, log
 
     strip = lambda e: {k: v for k, v in e.items() if k not in ("uid", "event_created_at", "source_uid", "action_uid", "action_finished_at")}  # noqa
 
-    async def converse(rt, calls, turns):
+    async def converse(rt, calls, turns, records=None):
         calls[0] = 0
         hist = []
         for t in turns:
             hist.append({"type": "UtteranceUserActionFinished", "final_transcript": "hi"})
             hist.append({"type": "UserIntent", "intent": t})
+            before = [strip(e) for e in hist]
             try:
                 new = await rt.generate_events(hist)
             except Exception as e:  # noqa
                 hist.append({"type": "EXC", "what": type(e).__name__ + ":" + str(e)[:60]})
                 break
+            if records is not None:
+                records.append({"before": before, "new": [strip(e) for e in new]})
             hist.extend(new)
         return [strip(e) for e in hist]
 
     loop = asyncio.new_event_loop()
+    records = []
     try:
-        rt1, c1 = mk()
-        fresh = loop.run_until_complete(converse(rt1, c1, turns))
-        rt2, c2 = mk()
+        rt1, c1, log1 = mk()
+        fresh = loop.run_until_complete(converse(rt1, c1, turns, records))
+        rt2, c2, _ = mk()
         rng = random.Random(case["seed"])
         for _ in range(2):
             other = [rng.choice(turns + ["zz unknown"]) for _ in range(rng.randrange(1, 5))]
@@ -1116,7 +1240,66 @@ def run_rt(case, src):
         used = loop.run_until_complete(converse(rt2, c2, turns))
     finally:
         loop.close()
+    # the oracle script for the Lean model of the loop: one entry per StartInternalSystemAction of the conversation
+    script, it = [], iter(log1)
+    for e in fresh:
+        if e["type"] == "StartInternalSystemAction":
+            name = e["action_name"]
+            if name.startswith("a") and name[1:].isdigit() and 1 <= int(name[1:]) < 40:
+                script.append(next(it, {"status": "success", "ret": None}))
+            else:
+                script.append({"status": "notfound"})
+    _M.last_rt = {"records": records, "script": script}
     return fresh, used
+
+
+def gen_canon_real(e):
+    """an event appended by generate_events, reduced to what the model of the loop carries"""
+    t = e["type"]
+    if t == "StartInternalSystemAction":
+        return ["start", e["action_name"], json.dumps(e["action_params"], sort_keys=True), e["action_result_key"]]
+    if t == "ContextUpdate":
+        return ["ctx", sorted([k, tr.val_to_model(v)] for k, v in e["data"].items())]
+    if t == "InternalSystemActionFinished":
+        return ["fin", e["action_name"], e["status"] == "success"]
+    if t == "BotIntent":
+        return ["bot", e["intent"]]
+    if t == "UserIntent":
+        return ["user", e["intent"]]
+    if t == "hide_prev_turn":
+        return ["hide"]
+    if t == "StartUtteranceBotAction":
+        return ["other", t, e.get("script")]
+    return ["other", t, None]
+
+
+def gen_canon_model(e):
+    k = e["e"]
+    if k == "start":
+        return ["start", e.get("name"), e.get("params"), e.get("rk")]
+    if k == "ctx":
+        return ["ctx", sorted(e["d"])]
+    if k == "fin":
+        return ["fin", e["name"], e["ok"]]
+    if k in ("bot", "user"):
+        return [k, e["i"]]
+    if k == "hide":
+        return ["hide"]
+    props = dict((a, b) for a, b in e.get("props", []))
+    sc = props.get("script")
+    return ["other", e["ty"], sc["s"] if isinstance(sc, dict) and "s" in sc else None]
+
+
+def gen_event_for_model(e):
+    """an event of the conversation so far as input of the model of the loop (`C14.gen`)"""
+    t = e["type"]
+    if t == "StartInternalSystemAction":
+        return {"e": "start", "name": e["action_name"], "params": json.dumps(e["action_params"], sort_keys=True), "rk": e["action_result_key"]}
+    if t == "StartUtteranceBotAction":
+        return {"e": "other", "ty": t, "props": [["script", tr.val_to_model(e.get("script"))]]}
+    if t == "UserMessage":
+        return {"e": "other", "ty": t, "props": [["text", tr.val_to_model(e.get("text"))]]}
+    return from_real_event(e)
 
 
 def from_real_event(e):
@@ -1384,6 +1567,13 @@ def run_impl(case):
             except tr.Unsupported as e:
                 return dict(obs, rt_skip=str(e))
             obs["rt_same"] = fresh == used
+            try:
+                obs["gen"] = [{"events": [gen_event_for_model(e) for e in r["before"]], "new": [gen_canon_real(e) for e in r["new"]]}
+                              for r in _M.last_rt["records"]]
+                obs["gen_script"] = _M.last_rt["script"]
+            except tr.Unsupported as e:
+                obs["gen"] = []
+                obs["gen_script"] = []
             if fresh != used:
                 i = next((i for i, (a, b) in enumerate(zip(fresh, used)) if a != b), min(len(fresh), len(used)))
                 obs["rt_diff"] = {"at": i, "fresh": fresh[i:i + 2], "used": used[i:i + 2]}
@@ -1440,6 +1630,40 @@ def run_impl(case):
                     res = {"res": "err"} if str(e).startswith("Error evaluating") else {"res": "exc:" + type(e).__name__}
                 slides.append({"flow": fid, "head": head, "ctx0": sorted([k, tr.val_to_model(v)] for k, v in ctxs[(head + len(slides)) % 3].items()), "out": res})
         obs["slides"] = slides
+        # (3b) slide WITH its side effect: `_label` keys injected into a copy of the parsed elements (and left-over
+        # `_active_label`s of "earlier slides"); which dicts get `_active_label` written, and the outcome, must be
+        # what V1Mut.slideM says (mutation_benign is about that function)
+        slides_m = []
+        lab_rng = random.Random(case["seed"] ^ 0xABCD)
+        idx = {c["id"]: c["elems"] for c in (mc or [])}
+        for fid, fc in load_configs(src).items():
+            n = len(fc.elements)
+            if len(slides_m) >= 6 or n == 0 or fid not in idx:
+                continue
+            for i in lab_rng.sample(range(n), min(n, lab_rng.choice([1, 1, 2]))):
+                fc.elements[i]["_label"] = lab_rng.choice(["L1", "L2", "L2", ""])
+                fc.elements[i]["_label_value"] = "v"
+            for i in range(n):
+                if lab_rng.random() < 0.2:
+                    fc.elements[i]["_active_label"] = "OLD"
+            melems = [{"el": el, "label": d.get("_label"), "active": d.get("_active_label")} for el, d in zip(idx[fid], fc.elements)]
+            for head in lab_rng.sample(range(n + 1), min(n + 1, 3)):
+                fc2 = copy.deepcopy(fc)
+                ctx0 = ctxs[1]
+                st = _M.fl.State(context=dict(ctx0), flow_states=[], flow_configs={fid: fc2})
+                try:
+                    h = _M.sliding.slide(st, fc2, head)
+                    res = {"res": "at" if h is not None and h >= 0 else "fin", "head": h, "upd": sorted([k, tr.val_to_model(v)] for k, v in st.context_updates.items())}
+                except tr.Unsupported:
+                    res = {"res": "unsupported"}
+                except Exception as e:  # noqa
+                    res = {"res": "err"} if str(e).startswith("Error evaluating") else {"res": "exc:" + type(e).__name__}
+                res["marks"] = [d.get("_active_label") for d in fc2.elements]
+                # nothing but the two private keys may have been written
+                strip2 = lambda d: {k: v for k, v in d.items() if k not in ("_active_label", "_active_label_data")}  # noqa
+                res["only_private"] = [strip2(a) for a in fc2.elements] == [strip2(a) for a in fc.elements]
+                slides_m.append({"flow": fid, "head": head, "elems": melems, "ctx0": sorted([k, tr.val_to_model(v)] for k, v in ctx0.items()), "out": res})
+        obs["slides_m"] = slides_m
     return obs
 
 
@@ -1456,6 +1680,19 @@ def model_requests(case, obs):
     idx = {c["id"]: c["elems"] for c in obs["mcfgs"]}
     for s in obs["slides"]:
         reqs.append({"m": "C14.slide", "elems": idx[s["flow"]], "ctx": s["ctx0"], "head": s["head"]})
+    # the action loop: one request per turn driven through RuntimeV1_0.generate_events (kind rt)
+    for g in obs.get("gen", []):
+        reqs.append({"m": "C14.gen", "flows": obs["mcfgs"], "events": g["events"], "results": obs["gen_script"]})
+    # slide with its side effect on the element dicts (`_active_label`)
+    for sm in obs.get("slides_m", []):
+        reqs.append({"m": "C14.slideM", "elems": sm["elems"], "ctx": sm["ctx0"], "head": sm["head"]})
+    # the source-level reference of next_step_is_flow_statement_with_do (V1Ref.followAllK) on every prefix, for
+    # programs in the theorem's setting: ONE dialog flow (default priority) + subflows
+    mains = [f for f in case["flows"] if not f["sub"]]
+    if len(mains) == 1 and all(f.get("prio") is None for f in case["flows"]):
+        reqs.append({"m": "C14.follow", "id": mains[0]["name"], "prog": prog_for_model(mains[0]["body"]),
+                     "lib": [{"name": f["name"], "prog": prog_for_model(f["body"])} for f in case["flows"] if f["sub"]],
+                     "history": obs["history"]})
     return reqs
 
 
@@ -1469,7 +1706,13 @@ def compare(case, obs, mouts):
     steps = mouts[0]["res"]
     nf = len(case["flows"])
     comps = mouts[1:1 + nf]
-    slides = mouts[1 + nf:]
+    ns = len(obs["slides"])
+    slides = mouts[1 + nf:1 + nf + ns]
+    ng = len(obs.get("gen", []))
+    gens = mouts[1 + nf + ns:1 + nf + ns + ng]
+    nsm = len(obs.get("slides_m", []))
+    slides_m = mouts[1 + nf + ns + ng:1 + nf + ns + ng + nsm]
+    follow = mouts[1 + nf + ns + ng + nsm:]
     # compiler tie: parser output == compile(AST) == comp none (AST)
     for f, c, mc in zip(case["flows"], comps, obs["mcfgs"]):
         if c["compile"] != mc["elems"]:
@@ -1492,6 +1735,34 @@ def compare(case, obs, mouts):
         b = _canon_model_res(b)
         if a != b:
             return f"prefix {k}: impl {a} model {b}"
+    # the action loop (generate_events) turn by turn; not compared inside the region of an open finding
+    if not any(obs.get("zombie", [])):
+        for t, (g, m) in enumerate(zip(obs.get("gen", []), gens)):
+            if "exc" in m:
+                continue    # the model's slide fuel ran out (the real loop ran into the >100 events valve instead)
+            mm = [gen_canon_model(e) for e in m["new"]]
+            if mm != g["new"]:
+                i = next((i for i, (a, b) in enumerate(zip(g["new"], mm)) if a != b), min(len(mm), len(g["new"])))
+                return f"generate_events turn {t}: event {i}: impl {g['new'][i:i+2]} model {mm[i:i+2]}"
+    # slide and its mutation of the element dicts
+    for sm, m in zip(obs.get("slides_m", []), slides_m):
+        o = sm["out"]
+        if o["res"] in ("unsupported",):
+            continue
+        if o["res"] != m["res"]:
+            return f"slide+labels({sm['flow']}, head={sm['head']}): impl {o} model {m}"
+        if o["res"] in ("at", "fin") and (o["head"] != m["head"] or o["upd"] != _norm_ctx(m["upd"])):
+            return f"slide+labels({sm['flow']}, head={sm['head']}): impl {o} model {m}"
+        if o["res"] != "oof" and o.get("marks") != m.get("marks"):
+            return f"slide+labels({sm['flow']}, head={sm['head']}): `_active_label` written to {o.get('marks')}, model {m.get('marks')}"
+    # the theorem's source-level reference (followAllK) against the implementation, wherever it is defined
+    if follow and not any(obs.get("zombie", [])):
+        for k, (a, b) in enumerate(zip(obs["used"], follow[0]["res"])):
+            if b is None or "exc" in a:
+                continue
+            bb = [([d[0], sorted(d[1])] if d[0] == "ctx" else d) for d in b["dec"]]
+            if a["ok"] != bb:
+                return f"followAllK (reference of next_step_is_flow_statement_with_do) prefix {k}: impl {a['ok']} reference {bb}"
     return None
 
 
@@ -1561,6 +1832,15 @@ def oracle(case, obs):
         return f"REUSE: prefix {k}: fresh flow configs decide {d}, used ones {u}"
     if case["kind"] == "rt" and not obs.get("rt_same", True):
         return f"REUSE: a used RuntimeV1_0 continues the same conversation differently: {obs['rt_diff']}"
+    # (c) the action loop: `$r = execute a` assigns the action's return value BEFORE the flow goes on — in every turn
+    # driven through generate_events, the Finished event of a successful action with a result key is preceded by a
+    # ContextUpdate carrying that value, unless the context already holds it
+    msg = oracle_assign(obs)
+    if msg:
+        return msg
+    for sm in obs.get("slides_m", []):
+        if not sm["out"].get("only_private", True):
+            return f"REUSE: slide({sm['flow']}, head={sm['head']}) changed an element dict beyond `_active_label` / `_active_label_data`"
     # (a) the flow's next statement
     exp, flags = ref_decisions(case["flows"], obs["history"])
     for k, (e, got) in enumerate(zip(exp, obs["used"])):
@@ -1573,6 +1853,53 @@ def oracle(case, obs):
         if got["ok"] != e:
             return ("ZOMBIE" if (flags[k] or obs["zombie"][k]) else "FOLLOW") + f": prefix {k}: decided {got['ok']}, the flow's next statement gives {e}"
     return None
+
+
+def oracle_assign(obs):
+    script = obs.get("gen_script") or []
+    call = 0
+    for t, g in enumerate(obs.get("gen", [])):
+        ctx = {}
+        for e in g["events"]:
+            if e["e"] == "ctx":
+                for k, v in e["d"]:
+                    ctx[k] = v
+            if e["e"] == "hide":
+                ctx = None   # what the flows see was rebuilt from a shortened history: no claim in this turn
+                break
+        pending = None
+        for e in g["new"]:
+            if e[0] == "start":
+                res = script[call] if call < len(script) else None
+                call += 1
+                pending = (e[1], e[3], res)
+                seen = None
+            elif e[0] == "ctx":
+                if ctx is not None:
+                    for k, v in e[1]:
+                        ctx[k] = v
+                if pending is not None:
+                    seen = dict((k, json.dumps(v, sort_keys=True)) for k, v in e[1])
+            elif e[0] == "fin" and pending is not None:
+                name, rk, res = pending
+                pending = None
+                if ctx is None or res is None or res.get("status") != "success" or not rk or not e[2] or e[1] != name:
+                    continue
+                want = res.get("ret")
+                have = ctx.get(rk)
+                if json.dumps(have, sort_keys=True) != json.dumps(want, sort_keys=True) and not _py_equal(have, want):
+                    return (f"ASSIGN: generate_events turn {t}: `${rk} = execute {name}` returned {want} but the flow went on "
+                            f"(InternalSystemActionFinished) while ${rk} was {have}")
+            elif e[0] == "hide":
+                ctx = None
+    return None
+
+
+def _py_equal(a, b):
+    try:
+        return tr.val_from_model(a) == tr.val_from_model(b)
+    except Exception:  # noqa
+        return False
 
 
 def zombie_region(case, obs):
@@ -1706,6 +2033,16 @@ def tags(case, obs):
         t.append("exc:" + next(d["exc"] for d in obs["used"] if "exc" in d))
     if any(ev["e"] == "hide" for ev in obs["history"]):
         t.append("hide")
+    if obs.get("gen"):
+        t.append("gen:turns%d" % min(len(obs["gen"]), 6))
+        t.append("gen:events%d" % (max(len(g["new"]) for g in obs["gen"]) // 5 * 5))
+        for st in sorted({x.get("status", "success") + ("+cu" if x.get("cu") else "") for x in obs.get("gen_script", [])}):
+            t.append("gen:act:" + st)
+    if obs.get("follow_depth") is not None:
+        t.append("followK:depth%d" % obs["follow_depth"])
+    if obs.get("slides_m"):
+        marks = [m for sm in obs["slides_m"] for m in sm["out"].get("marks", [])]
+        t.append("labels:" + ("written" if any(m not in (None, "OLD") for m in marks) else "none-written"))
     return t
 
 
